@@ -624,6 +624,17 @@ func (i *Interpreter) ExecuteRoute(route *Route, request *Request) (*Response, e
 						}
 					}
 				}
+			} else if err := i.typeChecker.CheckType(inputValue, route.InputType); err != nil {
+				// Any other declared type (T?, A | B, [T], a scalar): the body
+				// must conform to it as well. Only a bare named type was
+				// enforced, so `< input: Item?` ran the route on {"n":"x"}
+				// for n: int!.
+				return &Response{
+					StatusCode: 400,
+					Body: map[string]interface{}{
+						"error": fmt.Sprintf("input validation failed: %v", err),
+					},
+				}, err
 			}
 		}
 		routeEnv.Define("input", inputValue)
